@@ -23,6 +23,10 @@ type InterfaceMethod struct {
 	Name    string
 	Inputs  []InterfaceType
 	Outputs []InterfaceType
+
+	// pkg is the path of the package an unexported method name belongs to
+	// (empty for exported names and for hand-built models)
+	pkg string
 }
 
 // InterfaceType
@@ -122,6 +126,15 @@ func findInterfacesInPackage(
 	return result
 }
 
+// unexportedNamePkg returns the package path that qualifies an unexported method name:
+// two unexported methods are the same method only if they come from the same package
+func unexportedNamePkg(method *types.Func) string {
+	if method.Exported() || method.Pkg() == nil {
+		return ""
+	}
+	return method.Pkg().Path()
+}
+
 // extractMethodsFromInterface extracts methods from types.Interface
 func extractMethodsFromInterface(iface *types.Interface) []InterfaceMethod {
 	var methods []InterfaceMethod
@@ -134,6 +147,7 @@ func extractMethodsFromInterface(iface *types.Interface) []InterfaceMethod {
 			Name:    method.Name(),
 			Inputs:  extractTypesFromTuple(sig.Params(), sig.Variadic()),
 			Outputs: extractTypesFromTuple(sig.Results(), false),
+			pkg:     unexportedNamePkg(method),
 		})
 	}
 
